@@ -214,5 +214,6 @@ func newDotCtor(n *constructorNode) *dot.Ctor {
 		Package: n.location.Package,
 		File:    n.location.File,
 		Line:    n.location.Line,
+		Ref:     n,
 	}
 }
